@@ -6,18 +6,13 @@
 #include "verif.h"
 #include "libc.h"
 #include <gmssl/tls.h>
+#include "tls_names.h"
 
 #ifdef VERIF_CBMC
 unsigned G_gd_calls; int G_gd_ret; size_t G_gd_key; uint8_t G_gd_iv; size_t G_gd_ivlen; uint8_t G_gd_aad[5]; size_t G_gd_aadlen;
 size_t G_gd_in; size_t G_gd_inlen; size_t G_gd_tag; size_t G_gd_taglen; size_t G_gd_out;
 #define T13_NONCE(k, iv, seq) ((uint8_t)((iv)[k] ^ ((k) < 4 ? 0 : (seq)[(k) - 4])))
 #endif
-
-/* src/tls_trace.c: the four record content types of RFC 8446 (enforced on the real function by job tls_record_type_name) */
-const char *tls_record_type_name(int type)
-ASSIGNS()
-ENSURES((RET != NULL) == (type == 20 || type == 21 || type == 22 || type == 23))
-;
 
 int gcm_decrypt(const BLOCK_CIPHER_KEY *key, const uint8_t *iv, size_t ivlen, const uint8_t *aad, size_t aadlen,
 	const uint8_t *in, size_t inlen, const uint8_t *tag, size_t taglen, uint8_t *out)
